@@ -42,7 +42,7 @@ C08_Unique(post, n) ==
         (Len(p) >= 2 /\ post.instRef[Last(p)] # None /\ ~IsLeafInst(post, Last(p))) =>
             post.defRefs[post.instRef[Last(p)]] = {Last(p)}
 C08_ElabPreserved(pre, post, n) == Elab(pre, n) = Elab(post, n)
-C08_WF(post) == WF(post)
+C08_WF(pre, post) == WF(post) /\ (Local(pre) => Local(post))
 (* definitions the transformation created: fresh names, in the library of the definition they replace *)
 C08_FreshNames(pre, post, n) ==
     LET new == {d \in IdsD(post) : d > NumD(pre)} IN
@@ -83,20 +83,25 @@ FlatGroups(s, n) ==
                 w0 \in OccWire(s, n)} : g # {}}
 C09_NetsPreserved(pre, post, n) ==
     {g \in FlatGroups(pre, n) : Cardinality(g) >= 2} = {g \in FlatGroups(post, n) : Cardinality(g) >= 2}
-C09_WF(post) == WF(post)
+C09_WF(pre, post) == WF(post) /\ (Local(pre) => Local(post))   \* no wire is left holding a pin of a dissolved instance
 
+(* the elaboration / net oracles of Hier.tla presuppose a well-formed state (every link two-sided): on a      *)
+(* result that is not well-formed only the well-formedness clause is reported, the others are not evaluated  *)
 TransformClauses(pre, c, out, post) ==
     LET n == c.n IN
-    IF c.op = "uniquify" /\ out = "ok" THEN
-      << <<"C08_Unique", C08_Unique(post, n)>>,
-         <<"C08_ElabPreserved", C08_ElabPreserved(pre, post, n)>>,
-         <<"C08_WF", C08_WF(post)>>,
+    IF c.op = "uniquify" /\ out # "ok" THEN << <<"C08_Accepted", FALSE>> >>     \* uniquify of a well-formed netlist is never refused
+    ELSE IF c.op = "uniquify" THEN
+      LET wf == C08_WF(pre, post) IN
+      << <<"C08_WF", wf>>,
+         <<"C08_Unique", wf => C08_Unique(post, n)>>,
+         <<"C08_ElabPreserved", wf => C08_ElabPreserved(pre, post, n)>>,
          <<"C08_FreshNames", C08_FreshNames(pre, post, n)>>,
          <<"C08_Idempotent", C08_Idempotent(pre, post, n)>> >>
     ELSE IF c.op = "flatten" /\ out = "ok" /\ C08_Unique(pre, n) THEN
-      << <<"C09_OnlyLeaves", C09_OnlyLeaves(post, n)>>,
-         <<"C09_LeafBijection", C09_LeafBijection(pre, post, n)>>,
-         <<"C09_NetsPreserved", C09_NetsPreserved(pre, post, n)>>,
-         <<"C09_WF", C09_WF(post)>> >>
+      LET wf == C09_WF(pre, post) IN
+      << <<"C09_WF", wf>>,
+         <<"C09_OnlyLeaves", C09_OnlyLeaves(post, n)>>,
+         <<"C09_LeafBijection", wf => C09_LeafBijection(pre, post, n)>>,
+         <<"C09_NetsPreserved", wf => C09_NetsPreserved(pre, post, n)>> >>
     ELSE <<>>
 =============================================================================
